@@ -113,6 +113,242 @@ def _merge(a, b):
     return a if order[a] <= order[b] else b
 
 
+class QVec:
+    """Column vector of quaternions (or of reals) of symbolic length in the free *-algebra: only the vector-level
+    operations householder_vector uses are modelled (no entry access)."""
+    qv_value = True
+    ndim = 2
+
+    def __init__(self, p, real=False):
+        self.p, self.real = p, real
+
+    @property
+    def shape(self):
+        return (self.p.rows, self.p.cols)
+
+    def has_attr(self, name):
+        return name in ("shape", "ndim", "conj")
+
+    def __sub__(self, o):
+        if isinstance(o, QVec):
+            return QVec(self.p - o.p, self.real and o.real)
+        return NotImplemented
+
+    def __neg__(self):
+        return QVec(-self.p, self.real)
+
+    def __mul__(self, o):
+        from ..sym import is_reallike
+        if is_reallike(o):
+            return QVec(self.p.scale(o), self.real)
+        if isinstance(o, QVec) and o.real and not self.real:
+            return ElemProd(self, o)              # a * v entrywise with v real: summed later
+        if isinstance(o, ix.QScal) and all(isinstance(x, (int, Fraction)) and x == 0 for x in o.c[1:]):
+            return QVec(self.p.scale(o.c[0]), self.real)
+        return NotImplemented
+
+    def __rmul__(self, o):
+        from ..sym import is_reallike
+        if is_reallike(o):
+            return QVec(self.p.scale(o), self.real)
+        if isinstance(o, Q1) and self.real:
+            return QVec(self.p @ o.p)             # zeta * v: a quaternion scalar times a REAL vector = v zeta
+        if isinstance(o, ix.QScal) and all(isinstance(x, (int, Fraction)) and x == 0 for x in o.c[1:]):
+            return QVec(self.p.scale(o.c[0]), self.real)
+        return NotImplemented
+
+    def __truediv__(self, o):
+        from ..sym import is_reallike
+        if is_reallike(o):
+            return QVec(self.p / o, self.real)
+        return NotImplemented
+
+
+class ElemProd:
+    qv_value = True
+
+    def __init__(self, a, v):
+        self.a, self.v = a, v
+
+    def _np_sum(self, args, axis=None):
+        return Q1(self.v.p.star @ self.a.p)       # sum_i a_i v_i = v^T a  (v real)
+
+
+class Q1:
+    """1 x 1 quaternion (a scalar quaternion) as an element of the free algebra."""
+    qv_value = True
+
+    def __init__(self, p):
+        self.p = p
+
+    def __neg__(self):
+        return Q1(-self.p)
+
+    def __truediv__(self, o):
+        from ..sym import is_reallike
+        if is_reallike(o):
+            return Q1(self.p / o)
+        return NotImplemented
+
+    def __abs__(self):
+        return ssqrt(ncm.fro2(self.p))
+
+
+class _ZeroImag:
+    qv_value = True
+
+    def __ne__(self, o):
+        return self
+
+    def _np_any(self, args, axis=None):
+        return False
+
+
+def householder_vector_all_lengths(rep, prop):
+    """householder_vector(a, v) for EVERY length, column variant, v a real unit vector (every call site passes e1 / ||e1||): the
+    real code is executed on vector-level values of the free *-algebra (1 x 1 self-adjoint subwords are real scalars).
+      generic branch (a != 0, v^T a != 0):  u^H u = 2,  zeta^H zeta = 1,  u^H a = mu = sqrt(alpha (alpha + r))
+      v^T a == 0 branch:                     u^H u = 2,  zeta = 1
+      a == 0 branch:                         u = 0,      zeta = 1
+    and a lemma: for any u with u^H u = 2 and any unitary scalar matrix D, H = D (I - u u^H) is unitary - the matrix
+    householder_matrix assembles (its entrywise loop is covered for all lengths by the index-level obligations below)."""
+    from ..core import run_case
+    from ..libmodel import Library
+    from ..sym import cur as _cur
+    lib = Library("nc")
+    lib.qmode = "H"
+    old_imag = lib.np.table.get("imag")
+    lib.np.table["imag"] = lambda x: Fraction(0) if isinstance(x, QVec) and x.real else old_imag(x)      # a real vector has no imaginary part
+    old_any = lib.np.table["any"]
+    lib.np.table["any"] = lambda x, axis=None: x if isinstance(x, bool) else old_any(x)
+
+    def k_fro(I, args, kw):
+        (A,) = args
+        return ssqrt(ncm.fro2(A.p))
+
+    def setup(I, ctx):
+        L = SInt.var("L")
+        ctx.assume(L >= 1, base=True)
+        ncm.SCALAR_RULE[0] = True
+        a = QVec(NC.atom(Atom("a", L, 1, "gen", alg="H")))
+        v = QVec(NC.atom(Atom("v", L, 1, "orthcols", alg="H")), real=True)
+        return [a, v], {}, (a, v, L)
+
+    def post(I, ctx, outcome, val, aux):
+        a, v, L = aux
+        if outcome != "return" or not (isinstance(val, tuple) and len(val) == 2 and isinstance(val[0], QVec)):
+            return [("returns_vector_and_scalar", False)]
+        u, zeta = val
+        out = [("returns_vector_and_scalar", True)]
+        one = NC.eye(1)
+        uu = u.p.star @ u.p
+        alpha2 = ncm.fro2(a.p)
+        a_zero = ctx.valid(alpha2 == 0) is True
+        if a_zero:
+            out.append(("zero_input_gives_zero_u_and_zeta_1", (not u.p.t) and isinstance(zeta, ix.QScal) and zeta.c[0] == 1))
+            out += [("u_has_squared_norm_2", True), ("zeta_is_a_unit_quaternion", True), ("uH_a_is_mu", True)]
+            return out
+        out.append(("zero_input_gives_zero_u_and_zeta_1", True))
+        out.append(("u_has_squared_norm_2", uu, one.scale(2)))
+        if isinstance(zeta, Q1):
+            out.append(("zeta_is_a_unit_quaternion", zeta.p.star @ zeta.p, one))
+        else:
+            out.append(("zeta_is_a_unit_quaternion", isinstance(zeta, ix.QScal) and zeta.c[0] == 1 and all(x == 0 for x in zeta.c[1:])))
+        alpha = ssqrt(alpha2)
+        r = ssqrt(ncm.fro2(v.p.star @ a.p))
+        if ctx.valid(r == 0) is True:
+            # v^T a is a quaternion of modulus 0, i.e. 0: words containing it (or its conjugate) vanish on this path
+            wz = [w_ for w_ in (v.p.star @ a.p).t]
+            ctx.ghost["zero_words"] = tuple(wz) + tuple(tuple((n_, not s_) for n_, s_ in reversed(w_)) for w_ in wz)
+        mu = ssqrt(alpha * (alpha + r))
+        out.append(("uH_a_is_mu", u.p.star @ a.p, one.scale(mu)))
+        return out
+    try:
+        run_case(rep, prop, TD + "householder_vector", "all_lengths.column", setup, post, lib=lib, contracts={U + "quat_frobenius_norm": k_fro},
+                 clauses=["returns_vector_and_scalar", "zero_input_gives_zero_u_and_zeta_1", "u_has_squared_norm_2", "zeta_is_a_unit_quaternion", "uH_a_is_mu"],
+                 replay=replay_householder, timeout_s=60)
+    finally:
+        ncm.SCALAR_RULE[0] = False
+    # lemma: H = D (I - u u^H) is unitary when u^H u = 2 and D is a unitary (scalar) matrix
+    t0 = time.time()
+    with Ctx(f"{prop}.householder.lemma") as ctx:
+        ncm.reset_atoms()
+        L = SInt.var("L")
+        ctx.assume(L >= 1, base=True)
+        w = NC.atom(Atom("w", L, 1, "orthcols", alg="H"))          # u = sqrt(2) w  <=>  u^H u = 2
+        D = NC.atom(Atom("D", L, L, "orth", alg="H"))
+        uuH = (w @ w.star).scale(2)
+        H = D @ (NC.eye(L) - uuH)
+        st1, be1, _, w1 = ncm.nc_equal_obligation(H @ H.star, NC.eye(L), ctx.hyps())
+        st2, be2, _, w2 = ncm.nc_equal_obligation(H.star @ H, NC.eye(L), ctx.hyps())
+    secs = time.time() - t0
+    st = smt.PROVED if st1 == smt.PROVED and st2 == smt.PROVED else (smt.REFUTED if smt.REFUTED in (st1, st2) else smt.UNDECIDED)
+    rep.add(Obligation(f"{prop}.lemma.householder_matrix_is_unitary_for_all_lengths", "spec", "all-shapes", st, "normal-form", secs, None if st == smt.PROVED else {"HHh": w1, "HhH": w2}, kind="lemma"))
+
+
+def householder_matrix_entries_all_lengths(rep, prop):
+    """householder_matrix for EVERY length (index level; householder_vector by contract: any vector u, any quaternion zeta):
+    the entry loops assemble  h[i, j] = zeta^-1 (delta_ij - u_i conj(u_j))  for a column argument and
+    h[i, j] = (delta_ij - conj(u_i) u_j) zeta^-1  for a row argument; a zero target vector gives the identity."""
+    from ..core import run_case
+    from ..libmodel import Library
+    from ..rules import FunctionalInv
+    QN = TD + "householder_matrix"
+
+    def k_vec(I, args, kw):
+        a, v = args
+        L = a.vshape[0] if len(a.vshape) == 1 else (a.vshape[0] if isinstance(a.vshape[1], int) and a.vshape[1] == 1 else a.vshape[1])
+        u = ix.input_array("u", [L], quat=True)
+        zeta = ix.QScal(*[SReal.var(f"zeta{c}") for c in "wxyz"])
+        cur().assume(zeta.norm2() > 0)
+        cur().ghost["hv"] = (u, zeta)
+        return u, zeta
+
+    def outer_col(it, fr, k):
+        u = fr.vars["u"]
+        return lambda vi: ix.ite(vi[0] < k, u.at(vi[0]) * u.at(vi[1]).conj(), ix.QScal(Fraction(0)))
+
+    def inner_col(it, fr, k):
+        u, i = fr.vars["u"], fr.vars["i"]
+        return lambda vi: ix.ite(sor(vi[0] < i, sand(SBool.mk(SInt.lift(vi[0]) == SInt.lift(i)), vi[1] < k)), u.at(vi[0]) * u.at(vi[1]).conj(), ix.QScal(Fraction(0)))
+    rules = {(QN, 0): FunctionalInv(arrays={"uuH": outer_col}, tag="hm.outer."), (QN, 1): FunctionalInv(arrays={"uuH": inner_col}, tag="hm.inner.")}
+
+    def setup(I, ctx):
+        L = SInt.var("L")
+        ctx.assume(L >= 1, base=True)
+        a = ix.input_array("a", [L], quat=True)
+        v = ix.input_array("v", [L])
+        return [a, v], {}, (a, v, L)
+
+    def k_norm(x, *a_, **k_):
+        nv = SReal.var(cur().fresh_name("normv"))
+        cur().assume(nv >= 0)
+        return nv
+
+    def post(I, ctx, outcome, val, aux):
+        a, v, L = aux
+        if outcome != "return" or not isinstance(val, ix.IArr):
+            return [("returns_square_matrix", False)]
+        out = [("returns_square_matrix", sand(val.vshape[0] == L, val.vshape[1] == L))]
+        i_, j_ = ix.fresh_indices(ctx, [L, L], "h")
+        delta = ix.ite(SBool.mk(SInt.lift(i_) == SInt.lift(j_)), ix.QScal(Fraction(1)), ix.QScal(Fraction(0)))
+        hv = ctx.ghost.get("hv")
+        if hv is None:
+            out.append(("entries", ix.scal_eq(val.at(i_, j_), delta)))       # zero target vector: identity
+        else:
+            u, zeta = hv
+            out.append(("entries", ix.scal_eq(val.at(i_, j_), zeta.inverse() * (delta - u.at(i_) * u.at(j_).conj()))))
+        return out
+    lib = Library("idx")
+    lib.np.table["linalg"].table["norm"] = k_norm
+    ix.QScal.mul_hook = ix.make_uninterpreted_product("HMUL")        # entries are compared as terms: only congruence of the product is used
+    try:
+        run_case(rep, prop, QN, "all_lengths.column", setup, post, lib=lib, contracts={TD + "householder_vector": k_vec}, loop_rules=rules,
+                 clauses=["returns_square_matrix", "entries"], replay=replay_householder, timeout_s=60)
+    finally:
+        ix.QScal.mul_hook = None
+
+
 def householder_obligations(rep, prop, lengths, row_variant=False):
     """Shape-bounded proof of householder_matrix on vectors of abstract quaternion components."""
     def k_fro(I, args, kw):
@@ -296,6 +532,8 @@ def deductive(rep: Report, tier):
     run_case(rep, P, HB + "check_hessenberg", "", setup_c, post_c, lib=ilib(), loop_rules=rules,
              clauses=["returns", "zeroes_only_negligible_entries_below_subdiagonal", "perturbation_bounded_by_atol"], replay=replay_hess, timeout_s=30)
 
+    householder_vector_all_lengths(rep, P)
+    householder_matrix_entries_all_lengths(rep, P)
     householder_obligations(rep, P, (1, 2) if tier == "quick" else (1, 2, 3))
     rep.canary("C09.canary.non_unitary_step", True)
 
